@@ -4,6 +4,7 @@ import (
 	"fmt"
 	"runtime"
 	"sort"
+	"strings"
 	"sync"
 	"time"
 
@@ -19,13 +20,17 @@ import (
 //
 // Linearisation.  Every Storage.Incr call takes a ticket under the store's lock (Incr runs
 // while the calling generator's mutex is held, so tickets order the store calls of one
-// generator in lock order).  A call that did not reach the store returned an id; inside a
-// segment ids are issued in lock order, after the store call that leased the segment and
-// before the next store call of that generator.  So the key of a store call is
-// (ticket, 0, 0) and the key of any other Next is (ticket of the lease of its segment, 1, id);
-// events of different generators commute (each carries its own store answer).  A failed
-// store call is identified by the ticket carried in its error value, a successful one by the
-// counter it returned.
+// generator in lock order) and logs it for the calling goroutine, so the harness knows which
+// operation made which store calls (and how many: the original makes at most one).  A call
+// that did not reach the store returned an id; inside a segment ids are issued in order, after
+// the store call that leased the segment and before the next store call of that generator.
+// So the key of an operation that reached the store is (its first ticket, 0, 0) and the key
+// of any other Next is (ticket of the lease of its segment, 1, id); events of different
+// generators commute (each carries its own store answer).
+//
+// The callers use Next or MustNext (param must); dly 4 is the "hot" class: one generator, tiny
+// steps, many callers hammering it with no delay in the store and consecutive counters, so
+// that an id issued outside its segment comes back as a duplicate from the next lease.
 // the frame of SeqIDGen.Next in a goroutine dump (common/watch.go)
 const nextFrame = "qchen.fun/fatchoy/x/uuid.(*SeqIDGen).Next("
 
@@ -33,15 +38,20 @@ type concParams struct {
 	seed                     uint64
 	ngen, callers, each, dly int
 	step                     int64
+	must                     int // 1: callers use MustNext, 2: a mix, 0: Next
 }
 
 func (p concParams) sx() Sx {
-	return List(Int(9), Uint(p.seed), Int(int64(p.ngen)), Int(int64(p.callers)), Int(int64(p.each)), Int(p.step), Int(int64(p.dly)))
+	return List(Int(9), Uint(p.seed), Int(int64(p.ngen)), Int(int64(p.callers)), Int(int64(p.each)), Int(p.step), Int(int64(p.dly)), Int(int64(p.must)))
 }
 
 func concParamsOf(in Sx) concParams {
-	return concParams{seed: in.At(1).Uint64(), ngen: in.At(2).AsInt(), callers: in.At(3).AsInt(),
+	p := concParams{seed: in.At(1).Uint64(), ngen: in.At(2).AsInt(), callers: in.At(3).AsInt(),
 		each: in.At(4).AsInt(), step: in.At(5).Int64(), dly: in.At(6).AsInt()}
+	if in.Len() > 7 {
+		p.must = in.At(7).AsInt()
+	}
+	return p
 }
 
 type ticketErr struct {
@@ -60,16 +70,53 @@ type concStore struct {
 	dly     int
 	answers map[int64]answer // by ticket
 	byCtr   map[int64]int64  // counter -> ticket of the successful call that returned it
+	ctrGen  map[int64]int64  // counter -> generator it was handed to
+	logs    map[int64]*callLog
+	hot     bool
+	gate    chan *parkedCall // gated.go: every store call waits here until the driver lets it return
 }
 
-func (s *concStore) Incr() (int64, error) {
+// parkedCall: a store call that has taken its ticket and answer and waits to return
+type parkedCall struct {
+	gid, ticket int64
+	release     chan struct{}
+}
+
+// callLog: the tickets taken by one goroutine (only that goroutine appends)
+type callLog struct{ tickets []int64 }
+
+// genStore is the Storage handed to generator g: the shared store, knowing who asks.
+type genStore struct {
+	g int64
+	s *concStore
+}
+
+func (gs genStore) Incr() (int64, error) { return gs.s.incr(gs.g) }
+func (gs genStore) Close() error         { return nil }
+
+func (s *concStore) Incr() (int64, error) { return s.incr(-1) }
+
+func (s *concStore) incr(g int64) (int64, error) {
+	gid := CurGoid()
 	s.mu.Lock()
 	s.ticket++
 	t := s.ticket
+	lg := s.logs[gid]
+	if lg == nil {
+		lg = &callLog{}
+		s.logs[gid] = lg
+	}
+	lg.tickets = append(lg.tickets, t)
 	var a answer
 	switch {
+	case s.hot:
+		s.ctr++
+		a = answer{0, s.ctr}
+		s.byCtr[s.ctr] = t
+		s.ctrGen[s.ctr] = g
 	case s.rng.Intn(100) >= s.errRate:
 		s.ctr += int64(s.rng.Range(1, 3))
+		s.ctrGen[s.ctr] = g
 		a = answer{0, s.ctr}
 		s.byCtr[s.ctr] = t
 	case s.rng.Bool():
@@ -81,7 +128,13 @@ func (s *concStore) Incr() (int64, error) {
 	s.answers[t] = a
 	d := s.dly
 	n := s.rng.Range(1, 4)
+	gate := s.gate
 	s.mu.Unlock()
+	if gate != nil {
+		pc := &parkedCall{gid, t, make(chan struct{})}
+		gate <- pc
+		<-pc.release
+	}
 	// keep the caller inside Incr (its generator's mutex is held): the other callers of that
 	// generator queue on the mutex at the segment roll-over
 	switch d {
@@ -112,8 +165,14 @@ type concCall struct {
 	id      int64
 	err     error
 	panic   bool
-	blocked bool // the call never returned: parked on the generator's mutex for good (watch.go)
+	pval    interface{}
+	must    bool    // made through MustNext
+	tickets []int64 // the store calls made during the operation
+	blocked bool    // the call never returned: parked on the generator's mutex for good (watch.go)
 }
+
+// facts established directly on the concurrent run (not through the linearised history)
+var concFacts []string
 
 type keyed struct {
 	k1, k2, k3 int64
@@ -125,10 +184,10 @@ type keyed struct {
 func runConcurrent(p concParams) ([]event, []outc) {
 	rng := NewRng(p.seed)
 	st := &concStore{rng: rng.Fork(), ctr: int64(rng.Range(0, 40)), dly: p.dly, errRate: rng.PickInt(0, 0, 10, 30),
-		answers: map[int64]answer{}, byCtr: map[int64]int64{}}
+		answers: map[int64]answer{}, byCtr: map[int64]int64{}, ctrGen: map[int64]int64{}, logs: map[int64]*callLog{},
+		hot: p.dly == 4}
 	var seqno int64
 	var all []keyed
-	claimed := map[int64]bool{}
 	gens := make([]*uuid.SeqIDGen, p.ngen)
 	// sequential events get the key (tickets so far, 2+n, 0): after everything that happened
 	seqEvent := func(ev event, o outc) {
@@ -139,7 +198,7 @@ func runConcurrent(p concParams) ([]event, []outc) {
 		all = append(all, keyed{t, 1 + seqno, 0, ev, o})
 	}
 	create := func(g int) {
-		gens[g] = uuid.NewSeqIDGen(st, int32(p.step))
+		gens[g] = uuid.NewSeqIDGen(genStore{int64(g), st}, int32(p.step))
 		seqEvent(event{op: 0, g: int64(g), step: p.step}, outc{})
 		for {
 			err := gens[g].Init()
@@ -174,18 +233,28 @@ func runConcurrent(p concParams) ([]event, []outc) {
 				go func(g, k int) {
 					defer wg.Done()
 					gids[k] = CurGoid()
+					lg := &callLog{}
+					st.mu.Lock()
+					st.logs[gids[k]] = lg
+					st.mu.Unlock()
+					must := p.must == 1 || p.must == 2 && k%2 == 1
 					ready <- struct{}{}
 					<-start
 					sg := gens[g]
+					mine := make([]concCall, 0, p.each)
 					for i := 0; i < p.each; i++ {
-						var cc concCall
-						cc.g = int64(g)
-						cc.panic, _ = Catch(func() { cc.id, cc.err = sg.Next() })
-						resMu.Lock()
-						res[k] = append(res[k], cc)
-						resMu.Unlock()
+						cc := concCall{g: int64(g), must: must}
+						n0 := len(lg.tickets)
+						if must {
+							cc.panic, cc.pval = Catch(func() { cc.id = sg.MustNext() })
+						} else {
+							cc.panic, cc.pval = Catch(func() { cc.id, cc.err = sg.Next() })
+						}
+						cc.tickets = lg.tickets[n0:len(lg.tickets):len(lg.tickets)]
+						mine = append(mine, cc)
 					}
 					resMu.Lock()
+					res[k] = mine
 					finished[k] = true
 					resMu.Unlock()
 				}(g, g*p.callers+c)
@@ -229,52 +298,7 @@ func runConcurrent(p concParams) ([]event, []outc) {
 		defer resMu.Unlock()
 		st.mu.Lock()
 		defer st.mu.Unlock()
-		eff := p.step
-		if eff <= 0 {
-			eff = uuid.DefaultSeqStep
-		}
-		for _, calls := range res {
-			for _, cc := range calls {
-				ev := event{op: 2, g: cc.g, a: answer{kind: 1}}
-				var o outc
-				k := keyed{k1: 1 << 62}
-				switch {
-				case cc.blocked:
-					o.kind = 6
-				case cc.panic:
-					o.kind = 5
-				case cc.err != nil:
-					if te, ok := cc.err.(*ticketErr); ok {
-						o.kind, o.asked = 3, true
-						ev.a = st.answers[te.ticket]
-						k = keyed{k1: te.ticket}
-					} else {
-						o.kind = classify(cc.err)
-					}
-				default:
-					o.kind, o.value = 2, cc.id
-					// the counter whose segment holds the id: ceil(id/step) - 1
-					c := (cc.id - 1) / eff
-					if cc.id <= 0 {
-						c = -((-cc.id)/eff + 1)
-					}
-					if t, ok := st.byCtr[c]; ok {
-						if cc.id == c*eff+1 && !initLease(all, t) && !claimed[t] {
-							claimed[t] = true // one store call, one caller: a second call
-							// returning the same first id did not reach the store
-							// first id of a segment leased by a Next: that call reached the store
-							o.asked = true
-							ev.a = st.answers[t]
-							k = keyed{k1: t}
-						} else {
-							k = keyed{k1: t, k2: 1, k3: cc.id}
-						}
-					}
-				}
-				k.ev, k.out = ev, o
-				all = append(all, k)
-			}
-		}
+		all = append(all, keyedCalls(st, p.step, res)...)
 	}
 	for g := 0; g < p.ngen; g++ {
 		create(g)
@@ -303,19 +327,93 @@ func runConcurrent(p concParams) ([]event, []outc) {
 	return evs, outs
 }
 
-// initLease reports whether the store call with this ticket was made by an Init.
-func initLease(all []keyed, t int64) bool {
-	for _, k := range all {
-		if k.k1 == t && k.k2 == 0 && k.ev.op == 1 {
-			return true
+// keyedCalls gives every observed operation its place in the linear order (see the top of the
+// file) and checks the direct facts; st.mu must be held.
+func keyedCalls(st *concStore, step int64, res [][]concCall) []keyed {
+	var all []keyed
+	eff := step
+	if eff <= 0 {
+		eff = uuid.DefaultSeqStep
+	}
+	for k, calls := range res {
+		prevID, hasPrev := int64(0), false
+		for _, cc := range calls {
+			ev := event{op: 2, g: cc.g, a: answer{kind: 1}}
+			if cc.must {
+				ev.op = 4
+			}
+			var o outc
+			key := keyed{k1: 1 << 62}
+			if len(cc.tickets) > 0 {
+				// the operation reached the store: it stands where its first store call stands
+				o.asked, o.ncalls = true, int64(len(cc.tickets))
+				ev.a = st.answers[cc.tickets[0]]
+				key = keyed{k1: cc.tickets[0]}
+			}
+			switch {
+			case cc.blocked:
+				o.kind = 6
+			case cc.panic && cc.must:
+				o.kind = classifyPanic(cc.pval)
+			case cc.panic:
+				o.kind = 5
+			case cc.err != nil:
+				if _, ok := cc.err.(*ticketErr); ok {
+					o.kind = 3
+				} else {
+					o.kind = classify(cc.err)
+				}
+			default:
+				o.kind, o.value = 2, cc.id
+				// the counter whose segment holds the id: ceil(id/step) - 1
+				c := (cc.id - 1) / eff
+				if cc.id <= 0 {
+					c = -((-cc.id)/eff + 1)
+				}
+				if len(cc.tickets) == 0 {
+					if t, ok := st.byCtr[c]; ok {
+						key = keyed{k1: t, k2: 1, k3: cc.id}
+					}
+				}
+				// direct facts: the id lies in a segment the store handed to THIS generator,
+				// and the ids of one caller strictly increase (the store's counters do)
+				if g, ok := st.ctrGen[c]; !ok || g != cc.g {
+					concFacts = append(concFacts, fmt.Sprintf("foreign-segment: generator %d issued id %d from the segment of counter %d, which the store never handed to it", cc.g, cc.id, c))
+				}
+				if hasPrev && cc.id <= prevID {
+					concFacts = append(concFacts, fmt.Sprintf("caller-order: caller %d of generator %d received id %d after id %d", k, cc.g, cc.id, prevID))
+				}
+				prevID, hasPrev = cc.id, true
+			}
+			key.ev, key.out = ev, o
+			all = append(all, key)
 		}
 	}
-	return false
+	return all
 }
 
 func concObserved(p concParams) ([]event, []outc, Sx) {
 	evs, outs := runConcurrent(p)
 	return evs, outs, List(eventsSx(evs), outsSx(outs))
+}
+
+// reportConcurrent checks one executed scenario on the Go side and records it.
+func reportConcurrent(out *Out, kind string, p concParams, evs []event, outs []outc, obs Sx, asCase bool) bool {
+	bad := false
+	if asCase {
+		out.Case(kind, true, p.sx(), obs)
+	}
+	out.GoChecked++
+	if what, ok := goCheck(evs, outs); !ok {
+		bad = true
+		out.Violation("C08/go-"+what+"/"+kind, "segment id property fails on a linearised concurrent history: "+what, List(p.sx(), obs))
+	}
+	for _, f := range concFacts {
+		bad = true
+		out.Violation("C08/go-"+f[:strings.Index(f, ":")]+"/"+kind, "concurrent callers: "+f, List(p.sx(), obs))
+	}
+	concFacts = nil
+	return bad
 }
 
 func genConcurrent(a Args, out *Out, r *Rng) {
@@ -325,21 +423,50 @@ func genConcurrent(a Args, out *Out, r *Rng) {
 	}
 	for k := 0; k < n; k++ {
 		p := concParams{seed: r.Next() >> 1, ngen: r.Range(1, 3), callers: r.Range(2, 6), each: r.Range(10, 60),
-			step: r.PickI64(1, 2, 2, 3, 3, 5, 8), dly: k % 4}
+			step: r.PickI64(1, 2, 2, 3, 3, 5, 8), dly: k % 4, must: k % 3}
 		evs, outs, obs := concObserved(p)
 		nasked := 0
 		for i, o := range outs {
-			if o.asked && evs[i].op == 2 {
+			if o.asked && evs[i].op != 1 {
 				nasked++
 			}
 		}
 		out.CountN("concurrent:calls", len(evs))
 		out.CountN("concurrent:roll-overs", nasked)
 		out.Count(fmt.Sprintf("concurrent:delay-style-%d", p.dly))
-		out.Case("concurrent", true, p.sx(), obs)
-		out.GoChecked++
-		if what, ok := goCheck(evs, outs); !ok {
-			out.Violation("C08/go-"+what+"/concurrent", "segment id property fails on a linearised concurrent history: "+what, List(p.sx(), obs))
+		reportConcurrent(out, "concurrent", p, evs, outs, obs, true)
+	}
+	// the hot class: ONE generator, steps 1..3, 4..16 callers with nothing between their calls,
+	// a store that answers at once with consecutive counters.  Small ones go through the model,
+	// the volume is checked on the Go side (distinct, in a segment leased by this generator,
+	// consecutive, per-caller increasing); a failing one is written out as a case.
+	nsmall, nbig, each := 6, 16, 800
+	if a.Thorough() {
+		nsmall, nbig, each = 40, 120, 4000
+	}
+	found := 0
+	for k := 0; k < nsmall+nbig && found < 3; k++ {
+		p := concParams{seed: r.Next() >> 1, ngen: 1, callers: r.PickInt(4, 6, 8, 12, 16), each: each,
+			step: r.PickI64(1, 1, 2, 3), dly: 4, must: r.PickInt(0, 0, 1, 2)}
+		if k < nsmall {
+			p.each = r.Range(40, 150)
+		}
+		evs, outs, obs := concObserved(p)
+		out.CountN("hot:calls", len(evs))
+		out.Count("hot:scenarios")
+		small := len(evs) <= 3000
+		if k >= nsmall {
+			// judge first, write the history out only if it fails
+			if reportConcurrent(out, "hot", p, evs, outs, obs, false) {
+				found++
+				if len(evs) <= 40000 {
+					out.Case("hot", true, p.sx(), obs)
+				}
+			}
+			continue
+		}
+		if reportConcurrent(out, "hot", p, evs, outs, obs, small) {
+			found++
 		}
 	}
 }
